@@ -336,13 +336,19 @@ def schnorrsig_sign(msg, keypair, nonce_function=None, extra_data=None, context=
 
 def ecdsa_sign_recoverable(msg, secret, context=None):
     sig = ecdsa_sign(msg, secret)
-    pub = ec_pubkey_create(secret)
-    # Search for correct index. Not efficient but I am lazy.
-    # For efficiency use c-bindings to libsecp256k1
-    for i in range(4):
-        if ecdsa_recover(sig + bytes([i]), msg) == pub:
-            return sig + bytes([i])
-    raise ValueError("Failed to sign")
+    # recovery id of the nonce point R = kG, computed like libsecp256k1 does:
+    # bit 0 - Y of R is odd, bit 1 - X of R is not below the group order,
+    # bit 0 flips when S was negated to its low form
+    d = int.from_bytes(secret, "big")
+    z = int.from_bytes(msg, "big")
+    k = _key.deterministic_k(d, z)
+    R = _key.SECP256K1.affine(_key.SECP256K1.mul([(_key.SECP256K1_G, k)]))
+    recid = (R[1] & 1) | (2 if R[0] >= _key.SECP256K1_ORDER else 0)
+    r = R[0] % _key.SECP256K1_ORDER
+    s = (_key.modinv(k, _key.SECP256K1_ORDER) * (z + d * r)) % _key.SECP256K1_ORDER
+    if s > _key.SECP256K1_ORDER_HALF:
+        recid ^= 1
+    return sig + bytes([recid])
 
 
 def ecdsa_recoverable_signature_serialize_compact(sig, context=None):
@@ -394,6 +400,8 @@ def ecdsa_recover(sig, msghash, context=None):
         raise ValueError("Failed to recover public key")
     R = _key.ECPubKey()
     R.set(r_candidates[idx])
+    if not R.is_valid:
+        raise ValueError("Failed to recover public key")
     # s = (z + d * r)/k
     # (R*s/r - z/r*G) = P
     rinv = _key.modinv(r, _key.SECP256K1_ORDER)
